@@ -89,6 +89,36 @@ fn top_cap(probe: &str) -> Option<usize> {
     digits.parse().ok()
 }
 
+/// The same sequence as another implementation might have encoded it: the last item carries its real offset and is followed by
+/// a terminating zero slot (the library itself always leaves the `MAX` marker on the last item). `probe` is the probe string of
+/// `state` (`ok:v=<as_bytes len>:z=<size()>:…`). `None` when the vector is empty or there is no room for the extra slot.
+fn terminate_chain(state: &[u8], l: &crate::shape::LenS, os: usize, probe: &str) -> Option<Vec<u8>> {
+    let mut it = probe.split(':');
+    if it.next()? != "ok" { return None; }
+    let v: usize = it.next()?.strip_prefix("v=")?.parse().ok()?;
+    let z: usize = it.next()?.strip_prefix("z=")?.parse().ok()?;
+    let dec = |b: &[u8]| -> u128 {
+        let mut x = 0u128;
+        if l.be { for &c in b { x = (x << 8) | c as u128; } } else { for &c in b.iter().rev() { x = (x << 8) | c as u128; } }
+        x
+    };
+    let mut pos = 0usize;
+    loop {
+        if pos + l.size > state.len() { return None; }
+        let next = dec(&state[pos..pos + l.size]);
+        if next == 0 { return None; }
+        if next == l.max() { break; }
+        pos += next as usize;
+    }
+    if z < pos + os || z + os > v || v > state.len() { return None; }
+    let off = (z - pos) as u128;
+    if off >= l.max() { return None; }
+    let mut out = state.to_vec();
+    out[pos..pos + l.size].copy_from_slice(&l.encode(off));
+    out[z..z + l.size].copy_from_slice(&l.encode(0));
+    Some(out)
+}
+
 fn gen_op(sh: &Shape, cur: &D, rng: &mut Rng, depth: usize) -> Op {
     match sh {
         Shape::Vec(e, _) => {
@@ -184,7 +214,17 @@ pub fn run(reg: &[Box<dyn TypeOps>], cfg: &Cfg, out: &mut dyn Write) {
             let p0 = probe_str(t.as_ref(), { let (_, sl) = ar.place(&state, place, FILL); sl });
             let cap0 = top_cap(&p0);
             let steps = scripted.as_ref().map(|v| v.len()).unwrap_or(n_steps);
+            let mut last_probe = p0.clone();
             for step in 0..steps {
+                // now and then the state is re-encoded the way a foreign implementation could have written it (same sequence,
+                // terminating slot instead of the `MAX` marker): a valid value the library's own operations never produce
+                if scripted.is_none() {
+                    if let Shape::Flex(_, l) = &sh {
+                        if rng.chance(1, 6) {
+                            if let Some(s2) = terminate_chain(&state, l, sh.data_offset(), &last_probe) { state = s2; }
+                        }
+                    }
+                }
                 let op = match &scripted { Some(v) => v[step].clone(), None => gen_op(&sh, &abs, &mut rng, 0) };
                 let a16 = a16_of(&ar, place, room);
                 write!(out, "O {} {} {} {} {} => ", tid, pc(place), a16, hex(&state), op.text()).unwrap();
@@ -201,6 +241,7 @@ pub fn run(reg: &[Box<dyn TypeOps>], cfg: &Cfg, out: &mut dyn Write) {
                 writeln!(out).unwrap();
                 if ret == "PANIC" && want.as_deref() != Some("PANIC") { break; }
                 if !p.starts_with("ok:") { break; }
+                last_probe = p.clone();
                 state = after;
             }
         }
